@@ -9,6 +9,8 @@ import tlc
 import oa
 
 ASSUME = [
+    "history 'single': an earlier service created (and removed) through the same Tor object was a single-hop one; the request under test "
+    "carries the flags of its own options only",
     "port sets include one public port forwarded to two local targets (a repeated public port, in every mapping form)",
     "TLC decides every recorded vector with OnionAdd.Holds14 (expected key specifier, port mappings, flag set, client-auth entries, "
     "address, key custody, DEL_ONION); the full product of options is enumerated by the Python driver",
@@ -58,8 +60,8 @@ def requests(tier, seed):
                 if auth_clients is None and key["kind"] in ("bare", "prefixed") and not out[-1]["viator"]:
                     # the same request after a history on this connection: a service from the same key was run and removed
                     # (a restart), or Tor refused the first attempt to create one
-                    for h in ("removed", "refused"):
-                        for via_tor in (False, True):
+                    for h in ("removed", "refused", "single"):
+                        for via_tor in ((False, True) if h != "single" else (True,)):
                             out.append(dict(out[-1], key=dict(key), clients=[], ports=[dict(p) for p in ports], history=h, delfail=False,
                                             via_tor=via_tor))
                 if auth_clients:
